@@ -5,6 +5,7 @@ package harness
 // net_case (theories/Harness/Net.v).
 
 import (
+	ics23 "github.com/cosmos/ics23/go"
 	"context"
 	"crypto/sha256"
 	"encoding/hex"
@@ -104,6 +105,7 @@ type NetH struct {
 	preDigest string
 	preLedger any
 	Fails     []OracleFailure // failures detected while recording (C19)
+	forgeNext string          // the next proof fetched is re-encoded in this way ("rehash-value")
 }
 
 // directHook (C20): called right after a harness operation wrote to a chain's state directly
@@ -433,9 +435,24 @@ func (h *NetH) proof(ps ProofSpec, height uint64) ([]byte, string) {
 	if err != nil {
 		return garbage, "PGarbage"
 	}
+	forge := h.forgeNext
+	h.forgeNext = ""
+	if forge == "rehash-value" && len(mp.Proofs) > 0 && mp.Proofs[0].GetExist() != nil && mp.Proofs[0].GetExist().Leaf != nil {
+		// a genuine proof re-encoded against the proof specification: the stored value is hashed by
+		// the submitter and the leaf claims "no pre-hash"; the leaf pre-image and every hash up to the
+		// root are unchanged, but the proof now "shows" sha256(value) under the key.  For the model a
+		// proof that violates the specification establishes nothing.
+		ep := mp.Proofs[0].GetExist()
+		sum := sha256.Sum256(ep.Value)
+		ep.Value = sum[:]
+		ep.Leaf.PrehashValue = ics23.HashOp_NO_HASH
+	}
 	bz, err := g.App.AppCodec().Marshal(&mp)
 	if err != nil {
 		return garbage, "PGarbage"
+	}
+	if forge != "" {
+		return bz, "PGarbage"
 	}
 	return bz, fmt.Sprintf("(PGenuine %s %s)", hxS(g.ChainName), hxS(ps.Key))
 }
